@@ -263,7 +263,7 @@ fn main() {
     }
     if args.case.is_none() {
         let mut rng = Rng::new(args.seed);
-        let n = args.n.unwrap_or(if args.thorough() { 4000 } else { 500 });
+        let n = args.n.unwrap_or(if args.thorough() { 2000 } else { 300 });
         for i in 0..n {
             let mut r = rng.fork();
             let (c, malformed) = gen_case(&mut r);
